@@ -106,6 +106,10 @@ class SAnyObj:
         from .builtins_model import ListIter
         return Builtin(f'{self.name}.{name}', lambda i, args, kwargs, n: ListIter([]))
 
+    def hm_index(self, interp, idx, node):
+        # used as a mapping: every key is present, what it maps to is again known by nothing but its uses
+        return SAnyObj(f'{self.name}[...]')
+
     def __repr__(self):
         return f'<anyobj {self.name}>'
 
